@@ -5,4 +5,8 @@ cd "$(dirname "$0")"
 /venv/bin/python -c "import hypothesis" 2>/dev/null || \
   PIP_NO_INDEX=1 /venv/bin/pip install --no-index --find-links /opt/veriftools/wheels hypothesis
 /venv/bin/python -c "import hypothesis, Crypto, cryptography; print('setup ok: hypothesis', hypothesis.__version__)"
+# coverage-guided supplement of the thorough tiers of C16/C19 (optional: the checks note its absence and go on)
+if [ ! -d .deps/atheris ]; then
+  PIP_NO_INDEX=1 /venv/bin/pip install -q --no-index --find-links /opt/veriftools/wheels --target .deps atheris >/dev/null 2>&1 || echo "note: atheris not installed (thorough-tier supplement disabled)"
+fi
 mkdir -p evidence replays
